@@ -7,7 +7,8 @@ PROPS = "Transparent RefIsC01"
 
 def run(ctx):
     ctx.cov["rule"] = ("states = TLC refinement check Search(cache off) = RouteSpec over the template universe; behaviours = TLC -simulate "
-                       "runs (configuration built from 20 entry templates x 3 host forms, then requests) replayed on a real mux with "
+                       "runs (configuration built from 21 entry templates x 3 host forms, then requests incl. method tokens no configuration "
+                       "can list and decoded paths with a %XX sequence left) replayed on a real mux with "
                        "cacheSize 0, outcome compared with the contract's prediction after every request; traces = seeded random "
                        "configurations (richer grammar) with their requests, each validated by TLC against the contract; non-trivial = "
                        "distinct (owning-entry features, outcome class) pairs observed on the real code")
